@@ -415,7 +415,7 @@ def exec_request(b, snap, c0, stale, out, events, value, ok, cmd="exec"):
 
 
 # ------------------------------------------------------------------------------------------- one history
-def run_history(spec, hseed, steps, driver, props, mode="prim"):
+def run_history(spec, hseed, steps, driver, props, mode="prim", stress=False):
     """Returns (violations, disagreements, stats)."""
     rng = random.Random(hseed)
     env = Env()
@@ -477,6 +477,10 @@ def run_history(spec, hseed, steps, driver, props, mode="prim"):
             cut = None
             b.failing = set()
             kind = rng.random()
+            if stress:
+                # the failing-input search after something broke: many more failing calls, single workers, tolerant error limits
+                workers = rng.choice([1, 1, 2, 3])
+                kind = 0.3 if rng.random() < 0.45 else kind
             if kind < 0.25:
                 cut = rng.randint(0, 14)
             elif kind < 0.33:
@@ -494,7 +498,8 @@ def run_history(spec, hseed, steps, driver, props, mode="prim"):
             seed = rng.randrange(1 << 30)
             rr = coop.run_controlled(
                 lambda: uberjob.run(b.plan, registry=b.reg, output=outnodes, fresh_time=as_dt(F), max_workers=workers,
-                                    scheduler=sched, progress=None, max_errors=rng.choice([0, 0, None])),
+                                    scheduler=sched, progress=None,
+                                    max_errors=rng.choice([0, None, None, 1] if stress else [0, 0, None])),
                 seed, mode=mode)
             env.cut_at = None
             events = list(env.rec.events)
@@ -678,7 +683,7 @@ def order_monitor(b, events):
     return v
 
 
-def explore_cache(ctx, props, n_hist, steps=6, mode="prim"):
+def explore_cache(ctx, props, n_hist, steps=6, mode="prim", stress=False):
     rng = random.Random(ctx.seed * 2654435761 % (1 << 31) + 11)
     viol, dis = [], []
     tot = {}
@@ -687,7 +692,9 @@ def explore_cache(ctx, props, n_hist, steps=6, mode="prim"):
     for h in range(n_hist):
         spec = gen_cache_spec(rng, nmax=9 if ctx.tier == "quick" else 14)
         hseed = rng.randrange(1 << 30)
-        v, d, st = run_history(spec, hseed, steps, ctx.driver, props, mode=mode)
+        v, d, st = run_history(spec, hseed, steps, ctx.driver, props, mode=mode, stress=stress)
+        for x in v:
+            x["stress"] = stress
         for k, x in st.items():
             tot[k] = tot.get(k, 0) + x
         viol += [x for x in v if x["property"] in props]
@@ -711,7 +718,7 @@ def explore_cache(ctx, props, n_hist, steps=6, mode="prim"):
 
 
 def replay_cache(ctx, w, props):
-    v, d, _ = run_history(w["spec"], w["hseed"], w["steps"], ctx.driver, props)
+    v, d, _ = run_history(w["spec"], w["hseed"], w["steps"], ctx.driver, props, stress=w.get("stress", False))
     for x in v:
         if x["property"] in props:
             return x["what"]
